@@ -30,7 +30,8 @@ ASSUMPTIONS = ["'empty iff no admissible start candidate' uses the documented st
 
 C = ps.cfg
 MAIN = [C(f, ne, True, cut) for f in ms.FAMS for ne in (False, True) for cut in ms.CUTS] + \
-       [C(f, True, True, cut, 1) for f in ms.FAMS for cut in ("none", "mpn0.3")]
+       [C(f, True, True, cut, 1) for f in ms.FAMS for cut in ("none", "mpn0.3")] + \
+       [C(f, True, True, "none", None, maxnb=1) for f in ms.FAMS] + [C("S", True, True, "md1.5", 1, maxnb=2)]
 N4 = [C(f, True, True, cut) for f in ms.FAMS for cut in ("none", "md1.5", "mpn0.6")]
 HIST = [C("D", True, True, "mpn0.3", 1), C("S", True, True, "md1.5", 1), C("SN", True, True, "none", 1), C("D", False, True, "md1.5", None)]
 
